@@ -110,6 +110,10 @@ func runC19(c *Ctx, tier string) {
 					c.Fail("C19-E1", construct, ci.Pos(), "the error of "+name+" is dropped: direct access reports it, the service answers as if the operation succeeded")
 					continue
 				}
+				if ret := errDeadOnSomePath(call); ret != nil {
+					c.Fail("C19-E1", construct, ci.Pos(), "the error of "+name+" is looked at on some paths only: the handler can return at "+p.Pos(ret.Pos())+" without ever testing or reporting it")
+					continue
+				}
 				tests := errFlowsToTest(ev)
 				if len(tests) == 0 {
 					u := usesOfErr(ev)
